@@ -172,3 +172,25 @@ impl<B> vstd::std_specs::iter::IteratorSpecImpl for BitIter<B> {
     open spec fn decrease(&self) -> Option<nat> { Some(self.rem().len()) }
     open spec fn peek(&self, i: int) -> Option<u32> { if 0 <= i < self.rem().len() { Some(self.rem()[i]) } else { None } }
 }
+
+// TRUSTED: tuple_utils::Split for pairs and triples (left half, right half; the odd element goes right)
+pub trait Split: Sized {
+    type Left;
+    type Right;
+    spec fn split_spec(self) -> (Self::Left, Self::Right);
+    fn split(self) -> (r: (Self::Left, Self::Right)) ensures r == self.split_spec();
+}
+impl<A, B> Split for (A, B) {
+    type Left = (A,);
+    type Right = (B,);
+    open spec fn split_spec(self) -> ((A,), (B,)) { ((self.0,), (self.1,)) }
+    #[verifier::external_body]
+    fn split(self) -> (r: ((A,), (B,))) { ((self.0,), (self.1,)) }
+}
+impl<A, B, C> Split for (A, B, C) {
+    type Left = (A,);
+    type Right = (B, C);
+    open spec fn split_spec(self) -> ((A,), (B, C)) { ((self.0,), (self.1, self.2)) }
+    #[verifier::external_body]
+    fn split(self) -> (r: ((A,), (B, C))) { ((self.0,), (self.1, self.2)) }
+}
